@@ -53,11 +53,25 @@ type upScript struct {
 	Items      []upItem `json:"items"`
 	Cuts       []int    `json:"write_cuts"` // cut positions in the concatenated byte stream (nil: one write per item)
 	CutMode    string   `json:"cut_mode"`
+	Phone      string   `json:"phone,omitempty"` // decimal phone of the terminal (default 13800138000)
 }
+
+func (s upScript) phoneBCD() []byte {
+	if s.Phone == "" {
+		return phoneFor(s.V2019)
+	}
+	if s.V2019 {
+		return ref.PhoneBCDFromDigits(s.Phone, 10)
+	}
+	return ref.PhoneBCDFromDigits(s.Phone, 6)
+}
+
+// streamHook, when set, is called before write number i of runStream (used to overlap a second session).
+var streamHook func(i int)
 
 func (s upScript) encode(it upItem, serial uint16) []byte {
 	hdr := func(id uint16, body []byte) []byte {
-		return ref.Spec{ID: id, Version2019: s.V2019, VersionByte: 1, PhoneBCD: phoneFor(s.V2019), Serial: serial, Body: body}.Build()
+		return ref.Spec{ID: id, Version2019: s.V2019, VersionByte: 1, PhoneBCD: s.phoneBCD(), Serial: serial, Body: body}.Build()
 	}
 	switch it.Kind {
 	case "1210":
@@ -200,10 +214,15 @@ func runStream(dialect int, stream []byte, cuts []int, wantEvents, wantReplies i
 	}()
 	prev := 0
 	_ = client.SetWriteDeadline(time.Now().Add(20 * time.Second))
+	writeNo := 0
 	for _, c := range cuts {
 		if c <= prev || c > len(stream) {
 			continue
 		}
+		if streamHook != nil {
+			streamHook(writeNo)
+		}
+		writeNo++
 		for prev < c {
 			n := min(c-prev, 90*1024) // the server reads into a 100 KiB buffer
 			// items completely written once this write is consumed
